@@ -21,6 +21,13 @@ def _need(u, uname, *fns):
             raise AnalysisBroken('%s: anchor function %s vanished' % (uname, f))
 
 
+MAX_PATHS = 1500      # every exploration of this module has well under 100 paths on a healthy tree
+
+
+def _explore(it, fname, mk):
+    return it.explore(fname, mk, max_paths=MAX_PATHS)
+
+
 def _bits(names):
     for combo in itertools.product((0, 1), repeat=len(names)):
         yield dict(zip(names, combo))
@@ -135,6 +142,7 @@ def r151(cg, rep):
              'local binding iff is_static (else .globl), declared before its .comm/label; .comm iff -fcommon and tentative; else '
              '.data/.bss x thread-local by initialiser and is_tls, with @object type, size, max(16,align) for arrays >= 16 bytes; '
              'the list walk continues after every kind of object', floor=28)
+    _need(cg.cu, CGU, 'emit_data')
     fn = cg.cu.fn('emit_data')
     fline = fn.line
     it = cg.interp()
@@ -173,7 +181,7 @@ def r151(cg, rep):
                         v.fields['next'] = w
                         ctx.c15_var = v
                         return [v]
-                    res = it.explore('emit_data', mk)
+                    res = _explore(it, 'emit_data', mk)
                     rets = [(c, o) for c, o in res if o[0] == 'ret']
                     if not rets or len(rets) != len(res):
                         ag.undecided('shape/' + cls, 'emit_data has %d returning and %d non-returning paths for an object of class %s' % (len(rets), len(res) - len(rets), cls), fline)
@@ -324,6 +332,7 @@ def _show(fl, fcommon, has_init):
 def r152(cg, rep):
     rep.rule('R15.2', 'emit_text: a function is emitted iff is_function and is_definition and is_live; binding by is_static; in .text, '
              'typed @function, one entry label; current_fn designates it while its body is generated; the walk continues after every kind of entry', floor=14)
+    _need(cg.cu, CGU, 'emit_text', 'codegen')
     fn = cg.cu.fn('emit_text')
     fline = fn.line
 
@@ -349,10 +358,12 @@ def r152(cg, rep):
                 f.fields['body'] = cg.node(label + '.body')
                 return f
             f = func('fn', **fl)
+            if not fl['is_live']:
+                f.fields['is_root'] = 0     # parse() has marked every root live
             f.fields['next'] = func('next', is_function=1, is_definition=1, is_live=1, is_static=0, next=0)
             ctx.c15_fn = f
             return [f]
-        res = it.explore('emit_text', mk)
+        res = _explore(it, 'emit_text', mk)
         emit = fl['is_function'] and fl['is_definition'] and fl['is_live']
         cls = ('emit/' + ('static' if fl['is_static'] else 'external')) if emit else \
               ('skip/' + ('not-a-function' if not fl['is_function'] else ('declaration' if not fl['is_definition'] else 'not-live')))
@@ -418,22 +429,27 @@ def r152(cg, rep):
     ag.flush(fline)
     # ---- codegen(): both emitters run once over the whole program, after frame layout, writing to the given file
     ag = Agg(rep, 'R15.2', CGU, 'codegen')
-    if 'codegen' not in cg.cu.functions:
-        raise AnalysisBroken('codegen.c: anchor function codegen vanished')
     fline = cg.cu.fn('codegen').line
+    if 'emit_data' not in cg.cu.functions or 'assign_lvar_offsets' not in cg.cu.functions:
+        ag.undecided('phases', 'emit_data / assign_lvar_offsets vanished: the phases of codegen() cannot be recognised', fline)
+        ag.flush(fline)
+        return
 
     def rec(name):
         def h(it, ctx, n, args):
             ctx.emit('phase', name, _final(it, args[0]), ctx.globals.get('output_file'), n.line)
             return None
         return h
-    it = cg.interp(extra_cut={'emit_data': rec('emit_data'), 'emit_text': rec('emit_text'), 'assign_lvar_offsets': rec('assign_lvar_offsets')}, opaque=('get_input_files',))
+    ce = UnitEnv(cg.P, cg, CGU)
+    it = ce.interp(('codegen',), loop_limit=1,
+                   cut={'emit_data': rec('emit_data'), 'emit_text': rec('emit_text'), 'assign_lvar_offsets': rec('assign_lvar_offsets'),
+                        'println': lambda it_, ctx, n, args: None})
 
     def mk(ctx):
         ctx.c15_prog = Obj('Obj', lazy=True, label='prog')
         ctx.c15_out = Sym('out', 'FILE *')
         return [ctx.c15_prog, ctx.c15_out]
-    res = it.explore('codegen', mk)
+    res = _explore(it, 'codegen', mk)
     rets = [(c, o) for c, o in res if o[0] == 'ret']
     if not rets:
         ag.undecided('phases', 'codegen() has no returning path', fline)
@@ -590,6 +606,7 @@ def r154(cg, rep):
     rep.rule('R15.4', 'gen_addr(ND_VAR) address forms: VLA -> pointer loaded from the frame; local -> lea off(%rbp); -fPIC and thread-local -> general-dynamic '
              'sequence (for every thread-local variable, defined here or not); -fPIC -> GOT; thread-local -> local-exec; function without a definition in '
              'this unit -> GOT; otherwise RIP-relative', floor=14)
+    _need(cg.cu, CGU, 'gen_addr')
     fline = cg.cu.fn('gen_addr').line
     ag = Agg(rep, 'R15.4', CGU, 'gen_addr')
     NAME, OFF = ('sym', 'var.name'), ('sym', 'var.offset')
@@ -616,7 +633,13 @@ def r154(cg, rep):
                 nd.fields['var'] = v
                 nd.fields['ty'] = ty
                 return nd
-            it, res = cg.explore('gen_addr', mk)
+            it = cg.interp()
+
+            def mkroot(ctx, mk=mk):
+                nd = mk(ctx)
+                nd.meta['root'] = True
+                return [nd]
+            res = _explore(it, 'gen_addr', mkroot)
             want, also, cell = _want_addr(vla, fl['is_local'], fl['fpic'], fl['is_tls'], func, fl['is_definition'], fl['is_static'])
             key = 'ND_VAR/' + cell
             got_any = False
@@ -788,7 +811,7 @@ def r153_function(pe, rep):
                     a = Obj('VarAttr', lazy=True, label='attr')
                     a.fields.update(attr)
                     return [ctx.c15_tok, Obj('Type', lazy=True, label='basety'), a]
-                res = it.explore('function', mk)
+                res = _explore(it, 'function', mk)
                 for ctx, out in res:
                     if out[0] != 'ret':
                         continue          # diagnosed redeclaration conflicts
@@ -892,7 +915,7 @@ def r153_primary(pe, rep, root_marks_permanent, linkage_roots_hold):
                 ctx.c15_cf0 = Obj('Obj', lazy=True, label='caller') if inside else 0
                 return [Sym('rest', 'Token **'), ctx.c15_tok]
             del nulls[:]
-            res = it.explore('primary', mk)
+            res = _explore(it, 'primary', mk)
             rets = [(c, o) for c, o in res if o[0] == 'ret']
             if not rets:
                 if nulls:
@@ -972,12 +995,14 @@ def r153_mark_live(pe, rep):
                 names = [x if isinstance(x, str) else NAMES[x] for x in g[k]]
                 refs.fields.update(dict(data=Arr(list(names)), len=len(names), capacity=8))
                 o.fields['refs'] = refs
+                if k == 0:          # parse() starts mark_live at roots only: f0 is an ordinary (always emitted) function
+                    o.fields.update(dict(is_static=0, is_inline=0, is_root=1))
                 fns[nm] = o
             ctx.c15_fns = fns
             return [fns['f0']]
         del nulls[:]
         try:
-            res = it.explore('mark_live', mk)
+            res = _explore(it, 'mark_live', mk)
         except AnalysisBroken as e:
             if 'depth' in str(e):
                 res = []
@@ -1067,7 +1092,7 @@ def r153_parse(pe, rep):
         ctx.c15_havoc = False
         ctx.c15_scanned = None
         return [Obj('Token', lazy=True, label='tok')]
-    res = it.explore('parse', mk)
+    res = _explore(it, 'parse', mk)
     n = 0
     for ctx, out in res:
         if out[0] != 'ret' or not ctx.c15_havoc:
@@ -1187,7 +1212,7 @@ def r155_global_variable(pe, rep):
                         a.fields.update(dict(is_extern=int(storage == 'extern'), is_static=int(storage == 'static'), is_tls=tls, is_inline=0, is_typedef=0,
                                              align=64 if aligned else 0))
                         return [Obj('Token', lazy=True, label='tok'), Obj('Type', lazy=True, label='basety'), a]
-                    res = it.explore('global_variable', mk)
+                    res = _explore(it, 'global_variable', mk)
                     rets = [(c, o) for c, o in res if o[0] == 'ret']
                     cls = '%s%s/%s' % (storage, '+tls' if tls else '', 'initialised' if has_init else 'no-initialiser')
                     if not rets:
@@ -1258,7 +1283,7 @@ def r155_scan_globals(pe, rep):
                 a.fields['next'] = b
             ctx.c15_list = objs
             return []
-        res = it.explore('scan_globals', mk)
+        res = _explore(it, 'scan_globals', mk)
         rets = [(c, o) for c, o in res if o[0] == 'ret']
         desc = ('static ' if static else '') + (' -> '.join('%s:%s' % (nm, {'T': 'tentative', 'D': 'initialised', 'E': 'extern', 'F': 'function'}[k]) for nm, k in lst) or '(empty)')
         if len(rets) != 1:
@@ -1345,7 +1370,7 @@ def r156(pe, rep):
         ctx.c15_ty2 = Obj('Type', lazy=True, label='ty2'); ctx.c15_ty2.fields['align'] = Sym('ty2.align', 'int')
         ctx.c15_first = it.call_fn(u, u.fn('new_anon_gvar'), [ctx.c15_ty1])
         return [Sym('bytes', 'char *'), ctx.c15_ty2]
-    res = it.explore('new_string_literal', mk)
+    res = _explore(it, 'new_string_literal', mk)
     rets = [(c, o) for c, o in res if o[0] == 'ret']
     if len(rets) != 1:
         ag.undecided('evaluation', 'new_anon_gvar followed by new_string_literal has %d returning paths' % len(rets), fline)
@@ -1415,7 +1440,7 @@ def r156(pe, rep):
                 a = Obj('VarAttr', lazy=True, label='attr')
                 a.fields.update(dict(is_static=1, is_extern=0, is_tls=tls, is_inline=0, is_typedef=0, align=0))
                 return [Sym('rest', 'Token **'), Obj('Token', lazy=True, label='tok'), Obj('Type', lazy=True, label='basety'), a]
-            res = it.explore('declaration', mk)
+            res = _explore(it, 'declaration', mk)
             rets = [(c, o) for c, o in res if o[0] == 'ret']
             if not rets:
                 ag.undecided('static-local/evaluation', 'declaration() has no returning path for a block-scope static object', fline)
@@ -1488,7 +1513,7 @@ def r157(P, rep):
         def mk(ctx, opts=opts):
             argv = Arr(['chibicc'] + list(opts) + ['a.c', 0], label='argv')
             return [len(opts) + 2, argv]
-        res = it.explore('parse_args', mk)
+        res = _explore(it, 'parse_args', mk)
         okp = [(c, o) for c, o in res if o[0] == 'ret']
         name = '+'.join(opts) or 'no-option'
         if not okp:
@@ -1543,7 +1568,7 @@ def r157(P, rep):
 
         def mk(ctx):
             return [_strarray('inputs', ['a.o', 'b.o']), 'a.out']
-        res = it.explore('run_linker', mk)
+        res = _explore(it, 'run_linker', mk)
         rets = [(c, o) for c, o in res if o[0] == 'ret']
         if len(rets) != 1:
             ag.undecided('command/' + cfg, 'run_linker has %d returning paths' % len(rets), fline)
@@ -1665,7 +1690,6 @@ def run(P, rep, tier):
                         'psABI 3.1.2 array alignment, ELF TLS ABI (general-dynamic 16-byte pattern, local-exec), crt start-file order of the GNU toolchain',
                         'lists are analysed with the object under test followed by one plain definition (continuation), graphs with three functions (bounded-exhaustive)']
     cg = CG(P)
-    _need(cg.cu, CGU, 'emit_data', 'emit_text', 'gen_addr', 'println')
     envs = {}
 
     def penv():
@@ -1682,3 +1706,7 @@ def run(P, rep, tier):
             rep.undecided(rule, 'analysis', 'rule could not be evaluated: %s' % e)
         except RecursionError as e:
             rep.undecided(rule, 'analysis', 'interpreter recursion limit: %s' % e)
+        except Exception as e:             # a checker bug is never a verdict
+            import traceback
+            tb = traceback.format_exc().strip().splitlines()
+            rep.undecided(rule, 'crash', 'internal error of the checker: %r | %s' % (e, ' / '.join(x.strip() for x in tb[-4:])))
